@@ -420,6 +420,62 @@ def gen_promote_scenario(r, name):
     return lines
 
 
+def gen_buffered_scenario(r, name):
+    """hbuffer.c: a handle is switched to buffered access (HBconvert) on a contiguous, linked-block, external or new
+    element; it must keep behaving as the same byte array (seeks from every origin, overwrites, growth exactly when
+    the element underneath can grow, gaps, reads at the end), and closing it must put the bytes into the file"""
+    lines = ["history " + name, "open 0 %d %d" % (r.choice([4, 16]), r.choice([0, 1, 1]))]
+    kind = r.choice(["plain", "plain", "app", "app", "linked", "new", "ext"])
+    n = r.choice([1, 4, 10, 33])
+    if kind == "linked":
+        lines += ["hlcreate 0 0 100 1 %d %d" % (r.choice([1, 3, 8]), r.choice([1, 2])), "write 0 " + hexs(rbytes(r, n)), "end 0"]
+    elif kind != "new":
+        lines.append("putelement 0 100 1 %s" % hexs(rbytes(r, n)))
+    if r.random() < 0.6:
+        lines.append("putelement 0 101 1 %s" % hexs(rbytes(r, r.choice([2, 9]))))     # something behind it
+    if kind == "ext":
+        lines += ["hxcreate 0 0 100 1 0 %d 0" % r.choice([0, 7]), "end 0"]
+    if kind == "new":
+        n = 0
+        lines.append("startaccess 0 0 100 1 %d" % r.choice([3, 19]))
+    else:
+        lines.append("startaccess 0 0 100 1 %d" % (19 if kind == "app" else r.choice([1, 3, 3])))
+    if kind != "new" and r.random() < 0.4:
+        lines += ["seek 0 %d 0" % r.randrange(0, n + 1), "read 0 %d" % r.choice([1, 2])]   # convert away from position 0
+    lines.append("hbconvert 0")
+    grow = kind in ("app", "linked", "new", "ext")
+    pos = None
+    for _ in range(r.randrange(2, 9)):
+        a = r.random()
+        if a < 0.35:
+            t = r.randrange(0, n + 1) if not (grow and r.random() < 0.4) else n + r.choice([0, 1, 5, 40])
+            origin = r.choice([0, 0, 1, 2]) if pos is not None else r.choice([0, 2])
+            base = {0: 0, 1: pos or 0, 2: n}[origin]
+            lines.append("seek 0 %d %d" % (t - base, origin))
+            pos = t
+        elif a < 0.65 and pos is not None:
+            k = r.choice([1, 2, 7])
+            if not grow and pos + k > n:
+                k = n - pos
+                if k <= 0:
+                    continue
+            lines.append("write 0 " + hexs(rbytes(r, k)))
+            pos += k
+            n = max(n, pos)
+        elif a < 0.85 and pos is not None:
+            k = r.choice([0, 1, 3, 50])
+            lines.append("read 0 %d" % k)
+            pos = min(n, pos + (k if k else n)) if pos <= n else pos
+        elif a < 0.93:
+            lines.append("tell 0")
+        else:
+            lines.append("inquire 0")
+    lines += ["seek 0 0 0", "read 0 0", "end 0", "getelement 0 100 1", "reopen 0 16 1", "getelement 0 100 1"]
+    if any(l.startswith("putelement 0 101") for l in lines):
+        lines.append("getelement 0 101 1")
+    return lines
+
+
 def gen_stale_scenario(r, name):
     """bytes left behind by a longer, truncated version of an element must never show up again: the last element
     of the file is truncated, the file (usually) closed and reopened, the element extended through an extendable
@@ -831,7 +887,8 @@ def run(ctx):
         [gen_ext_scenario(r, "x%d" % i) for i in range(nh // 6)] + \
         [gen_layout_scenario(r, "y%d" % i) for i in range(nh // 4)] + \
         [gen_stale_scenario(r, "z%d" % i) for i in range(nh // 10)] + \
-        [gen_promote_scenario(r, "p%d" % i) for i in range(nh // 10)]
+        [gen_promote_scenario(r, "p%d" % i) for i in range(nh // 10)] + \
+        [gen_buffered_scenario(r, "b%d" % i) for i in range(nh // 8)]
     rc, R, S, flat = run_histories(ctx, hists, "main")
     opmix, fails_r = {}, 0
     pos = 0
